@@ -1,4 +1,111 @@
-import PySMT.Impl.Script
+import PySMT.Proofs.C16Main
+/-!
+# C16 — Scripts and incremental solvers track exactly the live assertions
+
+Property theorems only (proofs in `PySMT/Proofs/C16*.lean`).  All of them quantify over ALL command sequences
+that are legal in SMT-LIB: no bound on the length, on the arguments of push/pop, on the number of identifiers.
+`Spec` = `PySMT/Spec/AssertStack.lean`, models = `PySMT/Impl/Script.lean`, `PySMT/Impl/SolverTrack.lean`,
+decorator table = `PySMT/Gen/PendingPop.lean` (regenerated from /repo on every run).
+-/
+
 namespace PySMT.Props.C16
-theorem stub_partial : True := trivial
+open PySMT.AssertStack PySMT.SolverTrack PySMT.Proofs.C16
+open PySMT.Gen.PendingPop (classes)
+
+/-- `get_last_formula` on a legal script: no exception, and the reported conjunction is exactly the list of live
+    assertions (in order, with multiplicity). -/
+theorem script_refines_stack (cmds : List Cmd) (h : Legal cmds) :
+    ∃ s, run cmds = some s ∧ (Script.lastFormula cmds).map Prod.fst = .ok (live s) := by
+  unfold Legal at h
+  cases hs : run cmds with
+  | none => simp [hs] at h
+  | some s => exact ⟨s, rfl, by rw [lastFormula_refines cmds s hs]; rfl⟩
+
+/-- … and the reported goals are exactly the live goals: objectives in order, one MaxSMT goal per identifier, placed
+    at its first live soft clause and holding exactly the live soft clauses of that identifier. -/
+theorem goals_refine (cmds : List Cmd) (h : Legal cmds) :
+    ∃ s, run cmds = some s ∧ (Script.lastFormula cmds).map Prod.snd = .ok (liveGoals s) := by
+  unfold Legal at h
+  cases hs : run cmds with
+  | none => simp [hs] at h
+  | some s => exact ⟨s, rfl, by rw [lastFormula_refines cmds s hs]; rfl⟩
+
+/-- `get_strict_formula` accepts a script iff it has no push / pop / reset-assertions and exactly one check-sat, and
+    then returns the conjunction of its assert commands … -/
+theorem strict_ok (cmds : List Cmd) (fs : List Nat) :
+    Script.strictFormula cmds = .ok fs ↔
+      (cmds.any Script.isStackCmd = false ∧ (cmds.filter Script.isCheck).length = 1) ∧
+        fs = Script.assertsOfCmds cmds :=
+  strictFormula_ok_iff cmds fs
+
+/-- … which are exactly the live assertions of the (then necessarily legal) script. -/
+theorem strict_live (cmds : List Cmd) (fs : List Nat) (h : Script.strictFormula cmds = .ok fs) :
+    ∃ s, run cmds = some s ∧ fs = live s :=
+  strictFormula_live cmds fs h
+
+/-- `IncrementalTrackingSolver` bookkeeping + `pending_pop` protocol, for ANY placement of `@clear_pending_pop`
+    that covers the entry points: after every step of every legal sequence of calls (assert, push n, pop n,
+    reset, solve, is_sat / is_valid / is_unsat / solve([f]), reading `assertions`) nothing raised, the `assertions`
+    property returns exactly the live assertions, and a `solve()` would run on exactly the live assertions. -/
+theorem track_refines_stack (cfg : Config) (hc : Covers cfg = true) : TrackRefines cfg :=
+  trackRefines_of_covers hc
+
+/-- The placement condition is sufficient for the one-shot queries to be invisible to every later observation. -/
+theorem placement_sufficient (cfg : Config) (hc : Covers cfg = true) : OneshotRestores cfg :=
+  oneshotRestores_of_covers hc
+
+/-- Every concrete solver class of the tree that uses `Solver.is_sat` satisfies the placement condition (decided over
+    the table regenerated from the source: removing a decorator in /repo breaks this theorem). -/
+theorem placement_table : ∀ c ∈ classes, isConcrete classes c = true → usesBaseIsSat classes c = true →
+    Covers (configOf classes c) = true ∧ extrasCovered classes c = true :=
+  placement_table_holds
+
+/-- Hence, for every concrete solver class of the tree: one-shot queries leave the assertions as they found them. -/
+theorem oneshot_restores : ∀ c ∈ classes, isConcrete classes c = true → usesBaseIsSat classes c = true →
+    OneshotRestores (configOf classes c) ∧ TrackRefines (configOf classes c) :=
+  fun c hc h1 h2 =>
+    ⟨oneshotRestores_of_covers (placement_table_holds c hc h1 h2).1,
+     trackRefines_of_covers (placement_table_holds c hc h1 h2).1⟩
+
+/-! ## Non-vacuity: the hypotheses are satisfiable, the statements say something -/
+
+-- a legal script with multi-level push/pop, soft clauses coming and going, objectives
+example : Legal [.assert 1, .soft 0 10 1, .push 2, .assert 2, .soft 0 11 2, .soft 1 12 1, .objective 5, .pop 1,
+    .soft 1 13 1, .push 1, .assert 4, .pop 2, .assert 5] := by decide
+example : Script.lastFormula [.assert 1, .soft 0 10 1, .push 2, .assert 2, .soft 0 11 2, .soft 1 12 1, .objective 5,
+    .pop 1, .soft 1 13 1, .push 1, .assert 4, .pop 2, .assert 5] = .ok ([1, 5], [.maxsmt [(10, 1)]]) := by decide
+example : Script.lastFormula [.push 1, .soft 1 12 1, .objective 5, .soft 1 13 2, .assert 3] =
+    .ok ([3], [.maxsmt [(12, 1), (13, 2)], .obj 5]) := by decide
+-- illegal scripts exist and are excluded (the model then reports Python's IndexError)
+example : ¬ Legal [.push 1, .pop 2] := by decide
+example : Script.lastFormula [.push 1, .pop 2] = .error .indexError := by decide
+-- strict formula: accepted and refused scripts
+example : Script.strictFormula [.assert 1, .check, .assert 2] = .ok [1, 2] := by decide
+example : Script.strictFormula [.assert 1, .reset, .assert 2, .check] = .error .valueError := by decide
+example : Script.strictFormula [.assert 1, .check, .check] = .error .valueError := by decide
+
+/-- the placement of Z3Solver / MathSAT5Solver / BoolectorSolver -/
+def allDecorated : Config := ⟨true, true, true, true, true, true, true, true, true⟩
+/-- the placement CVC5Solver / CVC4Solver had before the repair (finding F27) -/
+def noneDecorated : Config := ⟨false, false, false, false, false, false, false, true, true⟩
+
+example : Covers allDecorated = true := by decide
+example : LegalOps [.assert 2, .oneshot .isValid 4, .push 2, .assert 6, .oneshot .isSat 8, .pop 1, .read, .solve] := by
+  decide
+-- the pending pop really is pending after a one-shot query, and is undone by the next call
+example : (SolverTrack.run allDecorated [.assert 2, .oneshot .isSat 4]).map (fun st => (st.tracked, st.pending)) =
+    .ok ([2, 4], true) := by decide
+example : (SolverTrack.run allDecorated [.assert 2, .oneshot .isSat 4, .solve]).map (fun st => (st.tracked, st.checks)) =
+    .ok ([2], [[2], [2, 4]]) := by decide
+-- the placement condition is needed: with no decorator the one-shot formula stays asserted (F27) …
+example : Covers noneDecorated = false := by decide
+example : (SolverTrack.run noneDecorated [.assert 2, .oneshot .isSat 4, .solve]).map (fun st => st.checks) =
+    .ok [[2, 4], [2, 4]] := by decide
+-- … and leaving out a single one (here `reset_assertions`) makes a later call fail in the native solver
+example : SolverTrack.run ⟨true, true, true, false, true, true, true, true, true⟩
+    [.oneshot .isSat 4, .reset, .assert 2] = .error .nativeError := by decide
+-- the table contains the classes the theorems talk about
+example : (classes.filter fun c => isConcrete classes c && usesBaseIsSat classes c).length ≥ 10 :=
+  table_has_classes
+
 end PySMT.Props.C16
